@@ -882,6 +882,65 @@ def mut_transform_terms(repo: Repo) -> List[Mutant]:
     return out
 
 
+# ------------------------------------------------------------------ stochastic dependence of two variables
+def rule_dependency_sources(repo: Repo) -> List[Ob]:
+    """UpdateInfoTransformer decides `v1 depends on v2` by intersecting what the two variables are computed from.  A draw has
+    no ancestors, so the variable itself has to be among its own sources: otherwise `u = Normal(0,1); x = u` makes x and u
+    look independent, and a condition on u is abstracted into an independent coin next to an assignment that reads x."""
+    cls = repo.cls("UpdateInfoTransformer", UIT)
+    key = f"{UIT}::UpdateInfoTransformer::dependency-sources"
+    for m in cls.all_methods:
+        defs = Defs(m.node, m.params()[0] if m.params() else None)
+        for loop in [n for n in walk_no_nested(m.node) if isinstance(n, ast.For) and isinstance(n.iter, ast.Call) and call_name(n.iter) == "combinations"
+                     and isinstance(n.target, ast.Tuple) and len(n.target.elts) == 2]:
+            v1, v2 = [e.id for e in loop.target.elts if isinstance(e, ast.Name)] if all(isinstance(e, ast.Name) for e in loop.target.elts) else (None, None)
+            if v1 is None:
+                continue
+            tests = [n for n in ast.walk(loop) if isinstance(n, ast.If) and any(isinstance(x, ast.BinOp) and isinstance(x.op, ast.BitAnd) for x in ast.walk(n.test))]
+            if not tests:
+                tests = [n for n in ast.walk(loop) if isinstance(n, ast.If) and any(isinstance(x, ast.Call) and call_name(x) in ("isdisjoint", "intersection") for x in ast.walk(n.test))]
+            if not tests:
+                continue
+            t = tests[0].test
+            band = next((x for x in ast.walk(t) if isinstance(x, ast.BinOp) and isinstance(x.op, ast.BitAnd)), None)
+            sides = [band.left, band.right] if band is not None else None
+            if sides is None:
+                c = next(x for x in ast.walk(t) if isinstance(x, ast.Call) and call_name(x) in ("isdisjoint", "intersection"))
+                sides = [c.func.value, c.args[0]] if c.args else None
+            if sides is None:
+                continue
+            from ..shape import resolve_alias as _ra
+
+            def own(side, v):
+                e = _ra(side, defs)
+                txt = src(e)
+                # loop-local names are inlined one level
+                for nm in [x.id for x in ast.walk(e) if isinstance(x, ast.Name)]:
+                    for d in defs.defs.get(nm, []):
+                        if isinstance(d, ast.expr):
+                            txt += " " + src(d)
+                return any(f"{{{v}}}" in txt.replace(" ", "") for _ in [0]) or f"add({v})" in txt.replace(" ", "")
+            anc_only = all("ancestors" in src(_ra(sd, defs)) or any("ancestors" in src(d) for nm in [x.id for x in ast.walk(sd) if isinstance(x, ast.Name)] for d in defs.defs.get(nm, []) if isinstance(d, ast.expr)) for sd in sides)
+            has_own = own(sides[0], v1) and own(sides[1], v2) or own(sides[0], v2) and own(sides[1], v1)
+            if has_own:
+                return [Ob("M-dependency-sources", key, UIT, tests[0].lineno, m.qualname, True, "a (randomly assigned) variable counts among its own sources when two variables are tested for dependence")]
+            if anc_only:
+                return [Ob("M-dependency-sources", key, UIT, tests[0].lineno, m.qualname, False,
+                           f"`{src(t)[:80]}` intersects the ancestors only: a draw has no ancestors, so a draw and its direct copy count as independent and a condition on the draw is abstracted as an independent coin")]
+            return [inconclusive("M-dependency-sources", key, UIT, tests[0].lineno, m.qualname, "dependence test not recognised")]
+    return [inconclusive("M-dependency-sources", key, UIT, cls.node.lineno, "UpdateInfoTransformer", "pairwise dependence computation not found")]
+
+
+def mut_dependency_sources(repo: Repo) -> List[Mutant]:
+    m = repo.module(UIT)
+    text = ast.unparse(m.tree)
+    a = "sources1 = info1.ancestors | ({v1} if v1 in random_variables else set())"
+    b = "sources2 = info2.ancestors | ({v2} if v2 in random_variables else set())"
+    if a in text and b in text:
+        return [Mutant("ancestors-only", {UIT: text.replace(a, "sources1 = info1.ancestors").replace(b, "sources2 = info2.ancestors")}, "fire", "dependency-sources", control=True)]
+    return []
+
+
 RULES = {
     "IFFLAT": Rule("M-if-flatten", rule_if_flattening, 6, "if/elif/else flattening: `_old` copies for every condition variable, renamed guard copies, accumulated negations, saving assignments first, else last", mut_if_flattening, soft=True),
     "MULTIASSIGN": Rule("M-multi-assign", rule_multi_assign, 3, "single-assignment renaming: pending renamings applied first, all but the last occurrence renamed, renaming cleared at the last", mut_multi_assign, soft=True),
@@ -891,5 +950,6 @@ RULES = {
     "SECTIONTABLES": Rule("M-section-tables", rule_section_tables, 2, "facts about unconditioned constants / draws are collected per section and only from unconditioned assignments", mut_section_tables, soft=True),
     "SOLVERSCOPE": Rule("M-solver-scope", rule_solver_scope, 3, "solver tables are created together with the program / RecBuilder they belong to", mut_solver_scope, soft=True),
     "MARKLAST": Rule("M-mark-last", rule_mark_last, 2, "guard marks are propagated onto the finished object that is returned", mut_mark_last, soft=True),
+    "DEPSOURCES": Rule("M-dependency-sources", rule_dependency_sources, 1, "two variables are tested for stochastic dependence on their sources including the (random) variables themselves", mut_dependency_sources, soft=True),
     "TRANSFORMTERM": Rule("M-transform-term", rule_transform_terms, 4, "cf/mgf values enter functional moments through the transform (differentiated `Id`-power times); constant shortcuts only under a test on the identity power", mut_transform_terms, soft=True),
 }
